@@ -209,8 +209,14 @@ func (d *Decoder) LoadParityData() error {
 	// TODO: Support searching for volume data without relying on
 	// filenames.
 
-	// TODO: Count only files saved in volume set.
-	fileCount := d.indexVolume.header.FileCount
+	// Only the files saved in the volume set are data shards and
+	// count against the limit of 256 shards.
+	var fileCount uint64
+	for _, entry := range d.indexVolume.entries {
+		if entry.header.Status.savedInVolumeSet() {
+			fileCount++
+		}
+	}
 	if fileCount >= 256 {
 		return errors.New("too many files")
 	}
